@@ -193,6 +193,24 @@ def _shard_entry(args):
         return ("harness", "shard %d crashed:\n%s" % (shard, traceback.format_exc()))
 
 
+def shard_replays(ctx, replay_fn):
+    """For modules with REPLAY_IN_RUN = True: replay replays/<ID>/reg-*.json inside the shards
+    (file k goes to shard k mod nshards) so that JIT-heavy replays run in parallel, once."""
+    rdir = os.path.join(ROOT, "replays", ctx.prop)
+    if not os.path.isdir(rdir):
+        return
+    files = sorted(f for f in os.listdir(rdir) if f.startswith("reg-") and f.endswith(".json"))
+    n = 0
+    for k, fn in enumerate(files):
+        if k % ctx.nshards != ctx.shard:
+            continue
+        with open(os.path.join(rdir, fn)) as f:
+            rp = json.load(f)
+        replay_fn(ctx, rp["payload"])
+        n += 1
+    ctx.extra["regression_replays_in_shards"] = n
+
+
 def load_known():
     p = os.path.join(ROOT, "known_findings.json")
     if not os.path.exists(p):
@@ -205,7 +223,7 @@ def match_known(known, prop, bucket):
     for k in known:
         if k.get("property") != prop or k.get("status") != "open":
             continue
-        if fnmatch.fnmatchcase(bucket, k.get("key", "")):
+        if any(fnmatch.fnmatchcase(bucket, alt) for alt in k.get("key", "").split("|")):
             return k
     return None
 
